@@ -32,6 +32,10 @@ struct Case {
     by_conn: bool,
     /// an older connection of the same endpoint exists
     older: bool,
+    /// (only with `by_conn` and `older`, after registration) the revoked connection is the
+    /// older, displaced one instead of the newest
+    #[serde(default)]
+    revoke_older: bool,
     rep: u8,
 }
 
@@ -101,7 +105,15 @@ fn run_case(c: &Case) -> Outcome {
         }
         // the connection id the policy saw at admission
         let conn_id = rec.events.lock().unwrap().iter().rev().find_map(|e| match e { Ev::Connect { ep, conn, allow: true } if *ep == target_id => Some(*conn), _ => None });
-        let Some(conn_id) = conn_id else { return Outcome::violation("C08:harness", "no on_connect for the target") };
+        let Some(mut conn_id) = conn_id else { return Outcome::violation("C08:harness", "no on_connect for the target") };
+        if c.revoke_older {
+            // revoke the displaced sibling: its id is the first admitted one of this endpoint,
+            // and from here on "target" denotes the revoked (older) connection
+            let first = rec.events.lock().unwrap().iter().find_map(|e| match e { Ev::Connect { ep, conn, allow: true } if *ep == target_id => Some(*conn), _ => None });
+            conn_id = first.unwrap_or(conn_id);
+            let newer = std::mem::replace(&mut target, older.take().expect("older sibling"));
+            older = Some(newer);
+        }
         if let Some(o) = older.as_mut() {
             // the older connection was displaced (or will be, in the window case): drain its notices
             let _ = o.recv(Duration::from_millis(50)).await;
@@ -179,7 +191,10 @@ pub fn run(ctx: &Ctx) {
         for position in [Position::Window, Position::AfterRegistration, Position::AfterTraffic] {
             for by_conn in [false, true] {
                 for older in [false, true] {
-                    cases.push(Case { position, by_conn, older, rep });
+                    cases.push(Case { position, by_conn, older, revoke_older: false, rep });
+                    if by_conn && older && position != Position::Window {
+                        cases.push(Case { position, by_conn, older, revoke_older: true, rep });
+                    }
                 }
             }
         }
